@@ -9,6 +9,17 @@ import z3
 
 NULL = z3.IntVal(0)
 
+_KEEP = {}
+
+
+def zid(z):
+    """z3's id of a term, for use as a dictionary key.  z3 recycles the ids of terms that have been freed, so a term
+    whose id is used as a key is kept alive for the rest of the process (else a later, unrelated term could take the id
+    and read the entry)."""
+    k = z.get_id()
+    _KEEP[k] = z
+    return k
+
 
 class Sym:
     __slots__ = ("z",)
